@@ -126,6 +126,9 @@ func (g *grownRoom) add(e roomEvent, ts int64, idTag int) bool {
 	if e.Addl == nil {
 		e.Addl = []string{}
 	}
+	if e.PUD == nil {
+		e.PUD = intp(-1) // always logged: StateRes_trace.tla reads it from every event
+	}
 	var realID string
 	switch {
 	case isDomainless(g.ver) || !isFormatV1(g.ver):
@@ -170,13 +173,7 @@ func (g *grownRoom) add(e roomEvent, ts int64, idTag int) bool {
 		es.Content = map[string]interface{}{"membership": e.Membership}
 	case "pl":
 		es.Type, es.StateKey = "m.room.power_levels", strp("")
-		users := map[string]int64{}
-		for u, r := range e.PLU {
-			if r >= 0 {
-				users[userIDs[u]] = roomLadder[r]
-			}
-		}
-		es.Content = map[string]interface{}{"users": users}
+		es.Content = e.plContent()
 	case "jr":
 		es.Type, es.StateKey = "m.room.join_rules", strp("")
 		es.Content = map[string]interface{}{"join_rule": e.JR}
@@ -212,6 +209,8 @@ func (g *grownRoom) incomparable(a, b int) bool {
 	return a != b && !g.anc[a-1][b] && !g.anc[b-1][a]
 }
 
+func intp(i int) *int { return &i }
+
 func noUsers() map[string]int {
 	return map[string]int{"creator": -1, "alice": -1, "bob": -1, "carol": -1}
 }
@@ -242,7 +241,16 @@ func growRoom(rng *rand.Rand, ver string, free int, tw *traceWriter, limit int) 
 	}
 	mustAdd(roomEvent{Type: "create", Sender: "creator", PLU: noUsers(), Prev: []int{}, Auth: []int{}, Depth: 1, Addl: addl})
 	mustAdd(roomEvent{Type: "member", Sender: "creator", SKey: "creator", Membership: "join", PLU: noUsers(), Prev: []int{1}, Auth: []int{1}, Depth: 2})
-	mustAdd(roomEvent{Type: "pl", Sender: "creator", PLU: initPL, Prev: []int{2}, Auth: []int{1, 2}, Depth: 3})
+	// in two rooms of five the initial power levels set users_default to 50 or 100: users without an entry then
+	// hold power (and send power events) through the default only
+	initPUD := -1
+	switch rng.Intn(5) {
+	case 0:
+		initPUD = 3
+	case 1:
+		initPUD = 4
+	}
+	mustAdd(roomEvent{Type: "pl", Sender: "creator", PLU: initPL, PUD: intp(initPUD), Prev: []int{2}, Auth: []int{1, 2}, Depth: 3})
 	mustAdd(roomEvent{Type: "jr", Sender: "creator", JR: "public", PLU: noUsers(), Prev: []int{3}, Auth: []int{1, 2, 3}, Depth: 4})
 	mustAdd(roomEvent{Type: "member", Sender: "alice", SKey: "alice", Membership: "join", PLU: noUsers(), Prev: []int{4}, Auth: []int{1, 3, 4}, Depth: 5})
 	mustAdd(roomEvent{Type: "member", Sender: "bob", SKey: "bob", Membership: "join", PLU: noUsers(), Prev: []int{5}, Auth: []int{1, 3, 4}, Depth: 6})
@@ -294,14 +302,22 @@ func growRoom(rng *rand.Rand, ver string, free int, tw *traceWriter, limit int) 
 		case 4, 5, 6:
 			e.Type = "pl"
 			cur := noUsers()
+			pud := -1
 			if x, ok := keyed["pl\x00"]; ok {
 				for k, v := range g.events[x-1].PLU {
 					cur[k] = v
 				}
+				pud = g.events[x-1].pud()
 			}
-			t := users[1+rng.Intn(3)]
-			cur[t] = []int{1, 3, 4, -1}[rng.Intn(4)]
+			if rng.Intn(4) == 0 {
+				// change users_default (absent, 0, 25, 50, 100), keep the users map
+				pud = []int{-1, 1, 2, 3, 3, 4}[rng.Intn(6)]
+			} else {
+				t := users[1+rng.Intn(3)]
+				cur[t] = []int{1, 3, 4, -1}[rng.Intn(4)]
+			}
 			e.PLU = cur
+			e.PUD = intp(pud)
 		case 7:
 			e.Type, e.JR = "jr", []string{"public", "invite"}[rng.Intn(2)]
 		default:
